@@ -115,7 +115,8 @@ def servedBy (score : κ → α → Nat) (p : Pool α) (k : κ) : α := getHealt
     perm     the ranked list is a rearrangement of the peer list
     head     the ranked list starts with the owner
     hminimal marking further peers unhealthy does not move a key whose server is still eligible
-    single   entry nodes that are healthy in a common view are served by the same node
+    single   two entry nodes with the same peer set hand a key to the same node (attributed to the recorded
+             finding C17-split-health-view exactly when their eligibility views differ on a serving node)
 -/
 namespace Spec
 
@@ -136,6 +137,7 @@ structure ServeRec (α κ : Type) where
   key       : κ
   served    : α
   viaAlloc  : Bool
+  pool      : Nat := 0    -- which pool of the cluster answered
 
 structure Mon (α κ : Type) where
   owners : List (OwnerRec α κ) := []
@@ -172,17 +174,31 @@ def checkQuery (le : α → α → Bool) (m : Mon α κ) (self : α) (S U : List
      serves := { self := self, set := S, unhealthy := U, key := k, served := howner, viaAlloc := false } :: m.serves },
    vAgree ++ vLocal ++ vPerm ++ vHead ++ vH)
 
-/-- one answered Allocate entering at the pool `self` -/
-def checkServe (m : Mon α κ) (self : α) (S U : List α) (k : κ) (served : α) :
-    Mon α κ × List Verdict :=
-  let eligible := fun (r : ServeRec α κ) => r.viaAlloc && r.key = k && r.set = S && r.unhealthy = U &&
-      S.contains r.self && !(U.contains r.self)
-  let vs := if S.contains self && !(U.contains self) then
+/-- eligibility as getHealthyOwner sees it from the entry node `self` with unhealthy set `U` -/
+def eligibleFrom (self : α) (U : List α) (x : α) : Bool := x == self || !(U.contains x)
+
+/-- the exclusion clause of finding C17-split-health-view: the two entry nodes disagree on the
+    eligibility (health entry, or the "local node is always healthy" rule) of one of the two nodes
+    that served the same key -/
+def splitView (self₁ : α) (U₁ : List α) (self₂ : α) (U₂ : List α) (a b : α) : Bool :=
+  eligibleFrom self₁ U₁ a != eligibleFrom self₂ U₂ a || eligibleFrom self₁ U₁ b != eligibleFrom self₂ U₂ b
+
+/-- one answered Allocate entering at pool `i` (= node `self`).  `views` are the CURRENT views (self, peer
+    set, unhealthy set) of all pools: an earlier answer of a pool whose view has not changed since is what
+    that pool would answer now, so both answers coexist and must name the same node when the two pools
+    have the same peer set.  Returns (monitor, clause, detail). -/
+def checkServe (m : Mon α κ) (views : List (Nat × α × List α × List α)) (i : Nat) (self : α) (S U : List α)
+    (k : κ) (served : α) : Mon α κ × List (String × String × String) :=
+  let vs := if S.contains self then
       m.serves.filterMap fun r =>
-        if eligible r && !(r.served = served) then some ("single", "two healthy entry nodes with a common view were served by different nodes")
+        let current := views.any fun v => v.1 == r.pool && v.2.1 = r.self && v.2.2.1 = r.set && v.2.2.2 = r.unhealthy
+        if r.viaAlloc && r.key = k && r.set = S && S.contains r.self && current && !(r.served = served) then
+          if splitView r.self r.unhealthy self U r.served served then
+            some ("single", "C17-split-health-view", "entry nodes with different health views were served by different nodes")
+          else some ("single", "none", "entry nodes whose views agree on both serving nodes were served by different nodes")
         else none
     else []
-  ({ m with serves := { self := self, set := S, unhealthy := U, key := k, served := served, viaAlloc := true } :: m.serves }, vs)
+  ({ m with serves := { self := self, set := S, unhealthy := U, key := k, served := served, viaAlloc := true, pool := i } :: m.serves }, vs)
 
 end Spec
 
